@@ -42,6 +42,7 @@ LEVEL = {
  'C01': ('bounded symbolic model checking of the real MIR: every path of simplify/get_simplified_mapping/update_from_simplified/flatten for every conflict within the arity bound and every value assignment; '
          'the property is a solver query per path (denotation equality over an arbitrary probe value). Unit tests sample a 3-value table; this covers every equality pattern.', '4 C01'),
  'C12': ('bounded symbolic model checking of the real MIR of merge_ref_targets and its async helpers with the commit index replaced by an arbitrary partial order: every absent/present pattern, id equality pattern and ancestry relation within the arity bound; each clause of the statement is a solver obligation per path', '4 C12'),
+ 'C30': ('bounded symbolic model checking: (1) one inductive step per combinator (Union/Intersection/Difference) from the real MIR with symbolic sub-matchers that are arbitrary but sound, which covers every nesting; (2) FilesMatcher/PrefixMatcher built by the real constructors from paths with symbolic component bytes, visit() vs matches() soundness for every directory and probe path in the bound', '4 C30'),
  'C02': ('bounded symbolic model checking of the real MIR of trivial_merge/resolve_trivial incl. the HashMap counting path with nondeterministic iteration order; result compared by the solver with an independent counting oracle on every path', '4 C02'),
 }
 
